@@ -84,6 +84,24 @@ def genvalRequest (st : DState) (f : List String) : String :=
      | _, _, _ => "bad-op")
   | _ => "bad-op"
 
+/-- `gendeep K ty seed depth`: as `genval` (lead 0), the value being a path of `depth` nested one-element counted arrays -/
+def gendeepRequest (st : DState) (f : List String) : String :=
+  match f with
+  | [k, ty, seed, depth] =>
+    (match k.toNat?, seed.toNat?, depth.toNat? with
+     | some k, some seed, some depth =>
+       (match st[k]? with
+        | some (some l) =>
+          let (x, _) := genNamed l.ast (20 * depth + 400) 0 ty { s := seed * 2654435761 + 12345, spine := depth + 1 }
+          if hasTypeNamed l.ast ty x then
+            let e := x.enc
+            hexOfBytes e ++ "\t" ++ (reprNamed l.ast ty 0 x).show ++ " ws=" ++ toString e.length ++
+              "\t" ++ " ".intercalate (marksNamed l.ast ty 0 x)
+          else "skip"
+        | _ => "no-spec")
+     | _, _, _ => "bad-op")
+  | _ => "bad-op"
+
 /-- `outputok <hex text>`: the judgement that stands in for rustc, and `Plans.Ok` -/
 def outputOkRequest (f : List String) : String :=
   match f with
